@@ -1209,11 +1209,17 @@ func (nz *normaliser) hoist(st ast.Stmt) []ast.Stmt {
 			}
 		case *ast.CallExpr:
 			if hh := nz.helperOf(info, x); hh != nil && hh.single == nil && hh.nres == 1 && !conditional {
+				// (the call is the first effect of the statement in evaluation order — visit stops at anything effectful
+				// before it — so naming it in front evaluates its operands exactly when they were evaluated before,
+				// whatever they are; only operands that themselves contain a literal function are left alone)
 				argsPure := true
 				for _, a := range x.Args {
-					if !pureSyntax(a) {
-						argsPure = false
-					}
+					ast.Inspect(a, func(n ast.Node) bool {
+						if _, isLit := n.(*ast.FuncLit); isLit {
+							argsPure = false
+						}
+						return argsPure
+					})
 				}
 				if sel, ok := ast.Unparen(x.Fun).(*ast.SelectorExpr); ok && !pureSyntax(sel.X) {
 					argsPure = false
